@@ -182,6 +182,15 @@ class VerifBackend(ParallelBackendBase):
             raise out
         return out
 
+    def terminate(self):
+        self.terminates = getattr(self, "terminates", 0) + 1
+
+    def start_call(self):
+        self.start_calls = getattr(self, "start_calls", 0) + 1
+
+    def stop_call(self):
+        self.stop_calls = getattr(self, "stop_calls", 0) + 1
+
     def abort_everything(self, ensure_ready=True):
         self.aborts += 1
         self.last_ensure_ready = ensure_ready
@@ -352,6 +361,11 @@ class Driver:
             "pending_pull": bool(self.pending_pull),
             "call_no": self.call_no,
             "aborts": self.backend.aborts if self.backend else 0,
+            "ensure_ready": getattr(self.backend, "last_ensure_ready", None) if self.backend else None,
+            "terminates": getattr(self.backend, "terminates", 0) if self.backend else 0,
+            "start_calls": getattr(self.backend, "start_calls", 0) if self.backend else 0,
+            "stop_calls": getattr(self.backend, "stop_calls", 0) if self.backend else 0,
+            "managed": bool(self.case.get("managed")),
         }
 
     def _collect(self):
